@@ -29,6 +29,18 @@ CONTAINMENT_TOLERANCE = 1e-7
 CONTAINMENT_TOLERANCE_CAP = 0.5
 
 
+def _solve_bounded_lp(c: Any, a_ub: Any, b_ub: Any) -> Any:
+    """Solve an LP whose objective is bounded by construction.
+
+    The solver's presolve occasionally reports such a problem as unbounded or infeasible when the
+    coefficients differ by many orders of magnitude; in that case it is solved again without presolve.
+    """
+    res = linprog(c=c, A_ub=a_ub, b_ub=b_ub, bounds=(None, None))
+    if res["status"] != 0:
+        res = linprog(c=c, A_ub=a_ub, b_ub=b_ub, bounds=(None, None), options={"presolve": False})
+    return res
+
+
 class PolyhedralTerm(Term):
     """Polyhedral terms are linear inequalities over a list of variables."""
 
@@ -1057,9 +1069,10 @@ class PolyhedralTermList(TermList):  # noqa: WPS338
             # 2 : Problem appears to be infeasible.
             # 3 : Problem appears to be unbounded.
             # 4 : Numerical difficulties encountered.
-            res = linprog(c=objective, A_ub=a_opt, b_ub=b_opt, bounds=(None, None))  # ,options={'tol':0.000001})
+            res = _solve_bounded_lp(objective, a_opt, b_opt)
             b_temp[i] -= 1
-            if res["status"] == 3 or (res["status"] == 0 and -res["fun"] <= b_temp[i]):  # noqa: WPS309
+            # the objective is capped by its own relaxed row: only a computed optimum can prove redundancy
+            if res["status"] == 0 and -res["fun"] <= b_temp[i]:  # noqa: WPS309
                 logging.debug("Can remove")
                 a_temp = np.delete(a_temp, i, 0)
                 b_temp = np.delete(b_temp, i)
@@ -1130,9 +1143,9 @@ class PolyhedralTermList(TermList):  # noqa: WPS338
             a_opt = np.concatenate((a_l, constraint), axis=0)
             b_opt = np.concatenate((b_l, np.array([b_temp])))
 
-            res = linprog(c=objective, A_ub=a_opt, b_ub=b_opt, bounds=(None, None))  # ,options={'tol':0.000001})
+            res = _solve_bounded_lp(objective, a_opt, b_opt)
             b_temp -= 1
-            if res["status"] == 2:
+            if res["status"] != 0:
                 is_refinement = False
                 break
             else:
